@@ -41,10 +41,26 @@ class InstrShape(PipeShape):
         super().__init__(sid, **params)
         st = params['stmt']
         src = f".org o0\nt0: {st['text']}\nt1: .byte 238\n"
+        files = None
         if params.get('muted'):
             # the statement sits in a muted region: it emits nothing but is assembled (and checked) like any other
             src = f".org o0\n#mute\nt0: {st['text']}\n#unmute\nt1: .byte 238\n"
-        self.params.setdefault('files', {'main.asm': src})
+        ctxt = params.get('context')
+        if ctxt == 'if1':                 # contexts that must not change what the statement assembles to
+            src = f".org o0\n#if 1\nt0: {st['text']}\n#endif\nt1: .byte 238\n"
+        elif ctxt == 'else-branch':
+            src = f".org o0\n#ifdef NOT_DEFINED_ANYWHERE\n.byte 1, 2, 3\n#else\nt0: {st['text']}\n#endif\nt1: .byte 238\n"
+        elif ctxt == 'after-muted-region':
+            src = f"#mute\n.byte 9\n#unmute\n.org o0\nt0: {st['text']}\nt1: .byte 238\n"
+        elif ctxt == 'included':
+            src = f".org o0\n#include \"stmt.asm\"\nt1: .byte 238\n"
+            files = {'main.asm': src, 'stmt.asm': f"t0: {st['text']}\n"}
+        elif ctxt == 'label-on-own-line':
+            src = f".org o0\nt0:\n    {st['text']}   ; comment\nt1:\n\t.byte 238\n"
+        elif ctxt == 'uppercase':
+            mn = st['text'].split()[0]
+            src = f".org o0\nt0: {mn.upper() + st['text'][len(mn):]}\nt1: .byte 238\n"
+        self.params.setdefault('files', files or {'main.asm': src})
         self.params.setdefault('start', Sym('o0', 0x100, 0x7000))
 
     @property
